@@ -903,6 +903,9 @@ def _negated(test: ast.AST) -> ast.AST | None:
         return test.operand
     if isinstance(test, ast.Compare) and len(test.ops) == 1 and type(test.ops[0]) in _NEGATE:
         return ast.Compare(left=test.left, ops=[_NEGATE[type(test.ops[0])]()], comparators=test.comparators)
+    if isinstance(test, ast.BoolOp):
+        # De Morgan, in the canonical (distributed) form of canonical_forms
+        return ast.BoolOp(op=ast.Or() if isinstance(test.op, ast.And) else ast.And(), values=[_negated(v) for v in test.values])
     return ast.UnaryOp(op=ast.Not(), operand=test)
 
 
